@@ -27,7 +27,7 @@ func init() {
 	register(&Check{ID: "C02", Level: mc, Run: func(r *h.Run) { runLookup(r, "C02") }, QuickBudget: 400 * time.Second, ThoroughBudget: 40 * time.Minute})
 	register(&Check{ID: "C03", Level: mc, Run: func(r *h.Run) { runLookup(r, "C03") }, QuickBudget: 400 * time.Second, ThoroughBudget: 40 * time.Minute})
 	register(&Check{ID: "C09", Level: mc, Run: func(r *h.Run) { runLookup(r, "C09") }, QuickBudget: 400 * time.Second, ThoroughBudget: 40 * time.Minute})
-	register(&Check{ID: "C10", Level: mc, Run: func(r *h.Run) { runLookup(r, "C10") }, QuickBudget: 400 * time.Second, ThoroughBudget: 40 * time.Minute})
+	register(&Check{ID: "C10", Level: mc, Run: func(r *h.Run) { runLookup(r, "C10") }, QuickBudget: 600 * time.Second, ThoroughBudget: 40 * time.Minute})
 }
 
 func runLookup(r *h.Run, prop string) {
